@@ -84,6 +84,50 @@ theorem select_distinct (env : Env N) (data : Row N) (t : String) (rows : List (
   rw [select_pipeline env data t rows p sel true [] none none proj ht hwt hna hsel]
   simp [sortRows, window_none, bind, Except.bind, pure, Except.pure]
 
+/-- **whole-table aggregates.**  When the select list consists of aggregates only and there is no GROUP BY, the
+    query computes ONE row, over ALL the rows that passed WHERE (they are `matched` of the context the select
+    list is evaluated in, whatever LIMIT / OFFSET say), and DISTINCT, ORDER BY and the window then apply to
+    that one row — a LIMIT cannot shorten what the aggregates see. -/
+theorem whole_aggregate_pipeline (env : Env N) (data : Row N) (t : String) (rows : List (Row N)) (p : Expr N)
+    (sel : List (SelItem N)) (distinct : Bool) (orderBy : List (List String × Bool)) (limit offset : Option Nat)
+    (row : Row N)
+    (ht : Val.get data t = .arr (rows.map Val.obj)) (hwt : ∀ r ∈ rows, WT r p)
+    (hall : isAllAggr sel = true)
+    (hsel : evalSel env (selCtx data (rows.map Val.obj) ((rows.filter (sem · p)).map Val.obj)) [] sel [] = .ok row) :
+    execQuery env data {} (.select [] distinct sel (.table [t] "" t) p [] (.bool true) orderBy limit offset)
+      = (do
+          let out ← window [Val.obj row] offset limit
+          pure (Val.arr out)) := by
+  have hE : ("" : String).isEmpty = true := by decide
+  simp only [execQuery, prepare, evalCtes, evalFrom, cteNames, List.append_nil, List.not_mem_nil,
+    if_false, readPath_single, ht, asArray, processAlias, bind, Except.bind, pure, Except.pure,
+    hE, if_true, execLevel, List.isEmpty_nil, Bool.not_true]
+  rw [levelLoop_flat _ _ _ rows (fun r => sem r p) (by
+    intro r hr
+    simp [evalPred_sound env ⟨data, false, false, _, _⟩ rfl r p (hwt r hr), rawBool])]
+  simp only [selCtx, List.length_map] at hsel
+  have hd : dedupBy valEq [Val.obj row] = [Val.obj row] := by simp [dedupBy, dedupLoop]
+  have hs : sortRows orderBy [Val.obj row] = .ok [Val.obj row] := by simp [sortRows]
+  simp only [Bool.false_eq_true, if_false, hall, Bool.true_and, selectRowsWith, Bool.not_false, if_true,
+    List.length_map, hsel, bind, Except.bind, pure, Except.pure, hd, ite_self, hs]
+
+/-- in particular `SELECT <aggregates> FROM t WHERE p LIMIT n` (n ≥ 1) is the row over all matching rows -/
+theorem whole_aggregate_limit (env : Env N) (data : Row N) (t : String) (rows : List (Row N)) (p : Expr N)
+    (sel : List (SelItem N)) (n : Nat) (hn : 1 ≤ n) (row : Row N)
+    (ht : Val.get data t = .arr (rows.map Val.obj)) (hwt : ∀ r ∈ rows, WT r p)
+    (hall : isAllAggr sel = true)
+    (hsel : evalSel env (selCtx data (rows.map Val.obj) ((rows.filter (sem · p)).map Val.obj)) [] sel [] = .ok row) :
+    execQuery env data {} (.select [] false sel (.table [t] "" t) p [] (.bool true) [] (some n) none)
+      = .ok (.arr [.obj row]) := by
+  rw [whole_aggregate_pipeline env data t rows p sel false [] (some n) none row ht hwt hall hsel]
+  have hw : window [Val.obj row] none (some n) = .ok [Val.obj row] := by
+    unfold window
+    by_cases h1 : n > 1
+    · simp [h1]
+    · have : n = 1 := by omega
+      subst this; simp
+  simp [hw, bind, Except.bind, pure, Except.pure]
+
 end Genql.Pipeline
 
 /-! ### a concrete instance (a test of the statement's shape, not part of the proof) -/
@@ -97,4 +141,8 @@ def exEnv : Env Int := { dfx := .none, constants := none, failOn := none }
 example : execQuery exEnv exData {} (.select [] true [.item (.col ["a"]) "a" ""] (.table ["t"] "" "t")
       (.cmp .gt (.col ["b"]) (.num 0)) [] (.bool true) [(["a"], false)] (some 1) (some 1))
     = .ok (.arr [.obj [("a", .num 1)]]) := by decide
+/-- `SELECT COUNT(*) AS n, SUM(a) AS s FROM t WHERE b > 0 LIMIT 1`: three rows pass, the one row is over all three -/
+example : execQuery exEnv exData {} (.select [] false [.item (.aggr "count" []) "n" "n", .item (.aggr "sum" [.col ["a"]]) "s" "s"]
+      (.table ["t"] "" "t") (.cmp .gt (.col ["b"]) (.num 0)) [] (.bool true) [] (some 1) none)
+    = .ok (.arr [.obj [("n", .num 3), ("s", .num 5)]]) := by decide
 end Genql.Pipeline
